@@ -97,8 +97,37 @@ class Crypto:
             return out
         return [code(getattr(v, "__name__", None) or repr(type(v)))]
 
+    def _split(self, v):
+        """[(condition, value)] with guarded alternatives lifted out of the top level and out of tuples"""
+        if isinstance(v, Guarded):
+            out = []
+            for c, x in v.alts:
+                if isinstance(x, Undefined):
+                    continue
+                out += [(z3.And(c, c2), y) for c2, y in self._split(x)]
+            return out
+        if isinstance(v, tuple) and any(isinstance(x, Guarded) for x in v):
+            combos = [(TRUE, ())]
+            for x in v:
+                nxt = []
+                for c, pre in combos:
+                    for c2, y in (self._split(x) if isinstance(x, (Guarded, tuple)) else [(TRUE, x)]):
+                        nxt.append((z3.And(c, c2), pre + (y,)))
+                combos = nxt
+            return combos
+        return [(TRUE, v)]
+
     def inj(self, name, v):
-        """injective uninterpreted function `name` applied to the flattened structure v"""
+        """injective uninterpreted function `name` applied to the flattened structure v (alternatives of different shape are
+        separate applications, chosen by their guards)"""
+        alts = self._split(v)
+        if len(alts) > 1:
+            res = None
+            for c, x in reversed(alts):
+                t = self.inj(name, x)
+                res = t if res is None else z3.If(c, t, res)
+            return res
+        v = alts[0][1] if alts else v
         args = self.leaves(v)
         fname = f"{name}_{len(args)}"
         f = z3.Function(fname, *([z3.IntSort()] * len(args)), z3.IntSort())
@@ -141,16 +170,19 @@ class Crypto:
         b.term, b.src, b.length, b.slicer = term, src, length, self._slice
         return b
 
+    def _len(self):
+        return self.I.int_var(self.I.fresh("encoded_length"), 1, 4096)
+
     def _coder(self, it, name, a, k, pc):
         x = a[0] if a else None
         if name == "encode_to_be_signed_data":
-            return self.blob(self.inj("EncTbsData", x), "tbsdata-bytes", x)
+            return self.blob(self.inj("EncTbsData", x), "tbsdata-bytes", x, length=self._len())
         if name == "encode_ToBeSignedCertificate":
-            return self.blob(self.inj("EncTbsCert", x), "tbscert-bytes", x)
+            return self.blob(self.inj("EncTbsCert", x), "tbscert-bytes", x, length=self._len())
         if name == "encode_etsi_ts_103097_certificate":
-            return self.blob(self.inj("EncCert", x), "cert-bytes", x)
+            return self.blob(self.inj("EncCert", x), "cert-bytes", x, length=self._len())
         if name == "encode_etsi_ts_103097_data_signed":
-            return self.blob(self.inj("EncSigned", x), "signed-bytes", x)
+            return self.blob(self.inj("EncSigned", x), "signed-bytes", x, length=self._len())
         if name == "decode_etsi_ts_103097_data_signed":
             if self.decode_signed is None:
                 raise Unsupported("decode of signed data without a model")
